@@ -118,6 +118,20 @@ func runRaceMisc(o *opts) (*summary, error) {
 					time.Sleep(time.Duration(T) * tick / 6)
 				}
 			}()
+			if req[1] == 0x94 {
+				// ... and a stream of replies across the END of the window (one every 150 us from T - 8 ms to T + 8 ms): the
+				// collector is handing over its list while the reader is still taking datagrams in
+				go func() {
+					rmu.Lock()
+					m := lt.Rsp["GetDevice"].message(rng, 0x17, []byte{9, 9, 9, 9}, "valid", nil)
+					rmu.Unlock()
+					time.Sleep(time.Duration(T)*tick - 8*time.Millisecond)
+					for t0 := time.Now(); time.Since(t0) < 16*time.Millisecond; {
+						bcast.WriteToUDP(m, src)
+						time.Sleep(150 * time.Microsecond)
+					}
+				}()
+			}
 		}
 	}()
 
